@@ -20,5 +20,7 @@ extern void (*libsci_verif_rng_hook)(int fn, uint32_t state_or_seed);
 /* H3: called once per iteration of the NIPALS loops just before the convergence
  * test: loop_id 0 = PCA, 1 = PLS LVCalc, 2 = CPCA */
 extern void (*libsci_verif_tick_hook)(int loop_id, size_t component, double conv);
+/* the same hook is called once per pass of the selection / Lloyd loops of clustering.c:
+ * loop_id 3 = KMeansppCenters, 4 = KMeans, 5 = MDC (component = items selected / pass number) */
 #endif
 #endif
